@@ -10,61 +10,61 @@ BASELINE = ("cd /repo && /venv/bin/python -m pytest -ra -q -p no:cacheprovider -
 
 P = {
     "C01": ("exploration", "reference-model monitor: independent T10 bit-level decode of every observed CDB",
-            "Runs the 42 real constructors and the 38 facade methods (recording device, fake sgio/iscsi) over boundary/walking-bit/flag-product/random arguments, values congruent mod 2^61-1 in sequence, length-only huge buffers for the high bits of allocation/transfer lengths, with other commands built in between, on every opcode table that offers the command, and decodes each observed CDB with an independent (byte,msb,width) reference; held = no disagreement on the executions counted in the evidence.",
+            "Runs the 42 real constructors and the 38 facade methods (recording device, fake sgio/iscsi) over boundary/walking-bit/flag-product/random arguments, values congruent mod 2^61-1 in sequence, length-only huge buffers for the high bits of allocation/transfer lengths, with other commands built in between, on every opcode table that offers the command, and decodes each observed CDB with an independent (byte,msb,width) reference; held = no disagreement on the executions counted in the evidence. Also: positional calls, print/copy/deep-copy/shallow-copy paths, the facade attached for real to units with random INQUIRY data, write buffers larger than the transfer.",
             "vmon/spec/cdb.py is a correct transcription of SPC-4/SBC-3/SMC-3/MMC-6/SAT-3; arguments that would allocate >16 MiB buffers are clipped (listed in evidence)", "4 C01"),
     "C02": ("exploration", "round-trip monitor on the public static encode/decode with hooked build_cdb",
-            "Hooks SCSICommand.build_cdb to capture the exact field values each constructor passes, then checks unmarshall_cdb(cdb)==values, marshall_cdb(unmarshall_cdb(b))==b for masked random byte strings, single-field perturbation independence, rebuilds on the same object (a CDB handed out earlier keeps its values), decoded values after the source buffer was reused, for all 42 classes, each also in a process where the generic base class was used first.",
+            "Hooks SCSICommand.build_cdb to capture the exact field values each constructor passes, then checks unmarshall_cdb(cdb)==values, marshall_cdb(unmarshall_cdb(b))==b for masked random byte strings, single-field perturbation independence, rebuilds on the same object (a CDB handed out earlier keeps its values), decoded values after the source buffer was reused, for all 42 classes, each also in a process where the generic base class was used first. Also: rebuilds with a sibling operation code equal the class-level encoder.",
             "round trips are taken right after constructing a command of the same class (C09 covers cross-talk)", "4 C02"),
     "C03": ("exploration", "reference-model monitor: buffers vs the transfer decoded from the wire CDB",
-            "Decodes the observed CDB with the reference and compares len(datain)/dataout with the transfer the CDB announces (allocation length, tl x block size, SAT rules, parameter list length), at the command object and at the fake sgio / fake iscsi boundary.",
+            "Decodes the observed CDB with the reference and compares len(datain)/dataout with the transfer the CDB announces (allocation length, tl x block size, SAT rules, parameter list length), at the command object and at the fake sgio / fake iscsi boundary. Also: replies announcing more than fits, first replies that are not GOOD, every further hand-off, the two-step fetch (allocation length edited in place).",
             "READ CD is checked for sufficiency (documented 3 KiB/sector over-allocation); buffers capped at 16 MiB", "4 C03"),
     "C04": ("exploration", "reference-model monitor: reference-encoded responses vs the library's decode",
-            "Encodes value trees with an independent reference encoder for 27 response formats (with and without trailing garbage; list formats with 0..9000 descriptors; MODE SENSE with 0..4 pages; standard INQUIRY of 36..96 bytes) and requires every reference field in the library's result, directly and through the facade.",
+            "Encodes value trees with an independent reference encoder for 27 response formats (with and without trailing garbage; list formats with 0..9000 descriptors; MODE SENSE with 0..4 pages; standard INQUIRY of 36..96 bytes) and requires every reference field in the library's result, directly and through the facade. Also: all-zero records, adjoining extent maps, the same response decoded again after the caller edited an earlier result, decoders called with immutable bytes and positional arguments.",
             "vmon/spec/datain.py transcribes the formats correctly; declared reference gaps are listed in the evidence", "4 C04"),
     "C05": ("exploration", "reference parser over library-built parameter lists",
-            "Builds MODE SELECT 6/10, PERSISTENT RESERVE OUT and EXTENDED COPY LID1/LID4 commands from generated valid dictionaries and walks the produced list with a reference parser that fails on any length that over/under-runs; CDB parameter list length must equal len(dataout).",
+            "Builds MODE SELECT 6/10, PERSISTENT RESERVE OUT and EXTENDED COPY LID1/LID4 commands from generated valid dictionaries and walks the produced list with a reference parser that fails on any length that over/under-runs; CDB parameter list length must equal len(dataout). Also: non-ASCII iSCSI names, LID1 lists beyond 65535 bytes, the TransportID-carrying lists once more in a non-UTF-8 locale.",
             "vmon/spec/dataout.py parsers are correct; MODE DATA LENGTH may be 0 (reserved in MODE SELECT) or honest", "4 C05"),
     "C06": ("exploration", "round-trip monitors (build/parse, parse/build, read-modify-write diff)",
-            "unmarshall(marshall(d)) on library-vocabulary dictionaries, marshall(unmarshall(b)) on reference-encoded canonical responses, and single-field read-modify-write diffs confined to the field's reference bit set.",
+            "unmarshall(marshall(d)) on library-vocabulary dictionaries, marshall(unmarshall(b)) on reference-encoded canonical responses, and single-field read-modify-write diffs confined to the field's reference bit set. Also: descriptor lists given as tuples / one-shot iterables, builds rejected part-way in between, built bytes edited in place.",
             "canonical byte strings come from the C04 reference encoders", "4 C06"),
     "C07": ("fault_enumeration", "fault injection at substituted sgio/iscsi + trace predicates",
-            "Injects all 256 status bytes and unique sense buffers (fixed and descriptor format, with real descriptors incl. forwarded sense data of another command) at every position of command sequences (with node re-plugs, repeated UNIT ATTENTIONs, a binding that reuses one static sense buffer) on fake sgio / fake iscsi (with and without raw_sense), through device.execute, with-blocks of device and facade, the generic SCSI.execute over all 42 classes, every facade method and long sessions on one facade object, raw-sense on/off, and evaluates the trace predicates of DESIGN 4 C07 (plus: one binding call per execute, earlier errors unchanged by later commands).",
+            "Injects all 256 status bytes and unique sense buffers (fixed and descriptor format, with real descriptors incl. forwarded sense data of another command) at every position of command sequences (with node re-plugs, repeated UNIT ATTENTIONs, a binding that reuses one static sense buffer) on fake sgio / fake iscsi (with and without raw_sense), through device.execute, with-blocks of device and facade, the generic SCSI.execute over all 42 classes, every facade method and long sessions on one facade object, raw-sense on/off, and evaluates the trace predicates of DESIGN 4 C07 (plus: one binding call per execute, earlier errors unchanged by later commands). Also: errors inspected only after later commands, hand-built commands of every operation code, every assigned ASC/ASCQ, the 25 conditions initiators are tempted to handle themselves on every facade method, no decoding after a failure that returns (raw sense).",
             "the stand-ins model the Python-level API of cython-sgio / cython-iscsi as used by the library", "4 C07"),
     "C08": ("exploration", "reference sense parser vs SCSICheckCondition over enumerated sense buffers",
-            "Constructs SCSICheckCondition for enumerated response codes x keys x ASC/ASCQ x lengths (every assigned code cut at every length with real descriptors / SKSV), requires construction/str/print not to raise, key/ASC/ASCQ at the SPC positions, T10 text for the referenced subset; the same for conditions as raised by SCSIDevice and ISCSIDevice over the binding stand-ins.",
+            "Constructs SCSICheckCondition for enumerated response codes x keys x ASC/ASCQ x lengths (every assigned code cut at every length with real descriptors / SKSV), requires construction/str/print not to raise, key/ASC/ASCQ at the SPC positions, T10 text for the referenced subset; the same for conditions as raised by SCSIDevice and ISCSIDevice over the binding stand-ins. Also: every buffer container type incl. signed chars and a ctypes pointer, copy/pickle, printing to absent/terminal stdout, all descriptor kinds incl. status-only forwarded sense.",
             "ASC/ASCQ reference subset in vmon/spec/sense.py", "4 C08"),
     "C09": ("exploration", "history monitor + deterministic line-level thread scheduler (sys.monitoring)",
-            "Solo baselines per command compared inside sequential histories (all ordered pairs, sampled/all triples, base-class and user-derived-class use, reused argument objects, buffers of discarded commands) and inside enumerated single/double-preemption interleavings of 2-3 threads scheduled at library source lines, cold-start schedules each in a fresh interpreter (first-use races), plus free-running stress threads.",
+            "Solo baselines per command compared inside sequential histories (all ordered pairs, sampled/all triples, base-class and user-derived-class use, reused argument objects, buffers of discarded commands) and inside enumerated single/double-preemption interleavings of 2-3 threads scheduled at library source lines, cold-start schedules each in a fresh interpreter (first-use races), plus free-running stress threads. Also: interpreters with nine different hash seeds print the same builds/decodes, checksum-colliding neighbour responses, fixed probe responses after hostile decodes, refusals in one living thread followed by every command in another.",
             "preemption only at source-line granularity; bounded preemption count", "4 C09"),
     "C10": ("exploration", "reference-model monitor: bit-by-bit reference codec vs converter functions",
-            "Random non-overlapping layouts (1..72-bit masks at any alignment, blobs), exhaustive values for narrow fields, random prior buffer contents; encode_dict/decode_bits/scsi_int_to_ba/scsi_ba_to_int compared with vmon/refcodec.py, plus in-vivo replay of the library's own layouts.",
+            "Random non-overlapping layouts (1..72-bit masks at any alignment, blobs), exhaustive values for narrow fields, random prior buffer contents; encode_dict/decode_bits/scsi_int_to_ba/scsi_ba_to_int compared with vmon/refcodec.py, plus in-vivo replay of the library's own layouts. Also: integers up to 65536 bytes, any field-name spelling, stray entries, wide-item blob buffers, decoded blobs are snapshots.",
             "refcodec.py self-checked at start", "4 C10"),
     "C11": ("exploration", "step-budget monitor (sys.monitoring LINE events) over hostile buffers",
-            "Every decoder (27 response formats, all 256 VPD page codes in SPC list shapes, sense data incl. nested forwarded sense) is run on mutated/truncated/byte-replaced/garbage buffers under (a) a logical step budget of 10000+1024*len library line events, (b) an opaque-CPU budget (process CPU time beyond 3us per counted line <= 0.5s+20us/byte) for work hidden inside one step, (c) a tracemalloc peak bound, (d) a proportionality monitor (16x-64x more descriptors may cost at most 2.5x the steps per byte) and (e) a retention monitor (memory left behind by a stream of distinct responses); exceeding a budget aborts the call and is the violation.",
+            "Every decoder (27 response formats, all 256 VPD page codes in SPC list shapes, sense data incl. nested forwarded sense) is run on mutated/truncated/byte-replaced/garbage buffers under (a) a logical step budget of 10000+1024*len library line events, (b) an opaque-CPU budget (process CPU time beyond 3us per counted line <= 0.5s+20us/byte) for work hidden inside one step, (c) a tracemalloc peak bound, (d) a proportionality monitor (16x-64x more descriptors may cost at most 2.5x the steps per byte) and (e) a retention monitor (memory left behind by a stream of distinct responses); exceeding a budget aborts the call and is the violation. Also: (f) processor time of the calling thread for responses of 1x and 4x the size up to 2 MiB (verdict beyond 2.2x proportional, three measurements), hostile response streams in (e), and the whole initiator against devices that answer hostilely for ever (also per-command mixes).",
             "bounded liveness: a decoder within budget is 'terminating'; budget slope is 4x the costliest terminating decoder", "4 C11"),
     "C12": ("exploration", "history + executable model (shadow disk) against a reference-decoding target",
-            "Random write/write-same/read/sync/capacity/inquiry histories through the facade over SCSIDevice(fake sgio) and ISCSIDevice(fake iscsi) against a strict target that decodes CDBs with the reference only; reads are compared with the caller-side shadow disk; one facade touring several logical units (some without READ CAPACITY(16)); single transfers of 16-32 MiB.",
+            "Random write/write-same/read/sync/capacity/inquiry histories through the facade over SCSIDevice(fake sgio) and ISCSIDevice(fake iscsi) against a strict target that decodes CDBs with the reference only; reads are compared with the caller-side shadow disk; one facade touring several logical units (some without READ CAPACITY(16)); single transfers of 16-32 MiB. Also: prepared commands whose payload windows (memoryview/array/mmap) are filled after construction, units of unmapped block types, results edited by the caller.",
             "vmon/sim/target.py and the binding stand-ins", "4 C12"),
     "C13": ("exploration", "event-order and identity monitor on a recording device",
-            "38 facade methods x opcode tables x every subset of optional keyword arguments: execute count, object identity of command and buffers, unmarshall-after-execute ordering, result equals decode of device-left bytes, opcode = table value = T10 value, arguments reach the CDB; device failures injected after the command was taken (9 exception types); long-lived facade sessions of 5-40 mixed calls with all returned commands held; facade attached for real and the device's table assigned afterwards; exactly-once and buffer identity at the binding boundary of both transports.",
+            "38 facade methods x opcode tables x every subset of optional keyword arguments: execute count, object identity of command and buffers, unmarshall-after-execute ordering, result equals decode of device-left bytes, opcode = table value = T10 value, arguments reach the CDB; device failures injected after the command was taken (9 exception types); long-lived facade sessions of 5-40 mixed calls with all returned commands held; facade attached for real and the device's table assigned afterwards; exactly-once and buffer identity at the binding boundary of both transports. Also: caller-built command sets changed with add()/remove(), devices from init_device used by several users in turn, several LUNs open at once, character special nodes, units with the identity strings of real hardware, write buffers larger than the transfer.",
             "FACADE argument table in vmon/spec/cdb.py fixed at the pinned commit", "4 C13"),
     "C14": ("exploration", "exhaustive walk of live enumerations against a T10 reference table",
-            "All 249 opcode entries x 5 tables, all service-action tables, 9 status names, 256 opcode values through init_cdb; second witness /usr/include/scsi/scsi.h; the live tables are walked again after a usage phase (attaches, every command with every opcode object of its value, every facade method) and any entry that appeared/changed is reported; every T10 name is also looked up by attribute on every table; CDB lengths of reused OpCode objects and of build_cdb with another operation code.",
+            "All 249 opcode entries x 5 tables, all service-action tables, 9 status names, 256 opcode values through init_cdb; second witness /usr/include/scsi/scsi.h; the live tables are walked again after a usage phase (attaches, every command with every opcode object of its value, every facade method) and any entry that appeared/changed is reported; every T10 name is also looked up by attribute on every table; CDB lengths of reused OpCode objects and of build_cdb with another operation code. Also: the command sets as real transport devices present them (new, assigned, attached per device type).",
             "vmon/spec/opcodes.py; SCC-2 maintenance service actions are a declared gap", "4 C14"),
     "C15": ("fault_enumeration", "event-sequence enumeration over real device nodes + invariants at the sgio boundary",
-            "All sequences up to a length bound over {exec, exec->CHECK CONDITION, both also with en_raw_sense, replug, unplug, replug+close failure, replug+re-open failure} + {close, with-exit, with-exit-by-exception, facade with-exit} x detect on/off x ro/rw x {regular file, symlink} on real nodes under /dev/shm, plus facade re-attach sequences; inode/closed/leak invariants evaluated inside the fake sgio.execute and at quiescent points via /proc/self/fd, also after the released objects were dropped.",
+            "All sequences up to a length bound over {exec, exec->CHECK CONDITION, both also with en_raw_sense, replug, unplug, replug+close failure, replug+re-open failure} + {close, with-exit, with-exit-by-exception, facade with-exit} x detect on/off x ro/rw x {regular file, symlink} on real nodes under /dev/shm, plus facade re-attach sequences; inode/closed/leak invariants evaluated inside the fake sgio.execute and at quiescent points via /proc/self/fd, also after the released objects were dropped. Also: character special nodes, nodes vanishing as dangling/self-referring links or with their directory, two users of one node, iSCSI re-open after release, the binding raising OSError, devices used and released in a forked child.",
             "replug = rename-over (new inode); TOCTOU windows inside one execute() are outside the quantifier", "4 C15"),
     "C16": ("exploration", "exhaustive attach enumeration against a simulated target",
-            "32 device types x 8 qualifiers x 2 transports attaches, ordered pairs/triples of re-attach over fresh devices (iSCSI: LUNs of one target), a facade moved back and forth between live devices, attach under pending CHECK CONDITIONs; checks the recorded INQUIRY CDB, the selected opcode table, primary and service-action commands actually sent afterwards, and that no command goes through a closed handle.",
+            "32 device types x 8 qualifiers x 2 transports attaches, ordered pairs/triples of re-attach over fresh devices (iSCSI: LUNs of one target), a facade moved back and forth between live devices, attach under pending CHECK CONDITIONs; checks the recorded INQUIRY CDB, the selected opcode table, primary and service-action commands actually sent afterwards, and that no command goes through a closed handle. Also: every VERSION / RESPONSE DATA FORMAT, identity strings of real hardware, nodes named through directory links and '..', a device copy dropped before the attach.",
             "fake transports + target", "4 C16"),
     "C17": ("exploration", "refusal monitor with a recording device",
-            "Invalid-class inputs for every refusal in the statement through constructors and facade; requires the specific exception class name, zero execute calls, no object returned; valid neighbours must not be refused.",
+            "Invalid-class inputs for every refusal in the statement through constructors and facade; requires the specific exception class name, zero execute calls, no object returned; valid neighbours must not be refused. Also: a second facade on a device whose first facade has a block size, every command class/encoder/facade method with every lengthless operation code, device types outside the table, iSCSI names containing the ISID separator.",
             "class-name match (metaclass creates per-class exception types)", "4 C17"),
     "C18": ("exploration", "history + executable dict model in lock-step",
-            "Random add/remove/lookup/reverse-lookup/keys sequences on several Enum objects alive at once vs a dict model.",
+            "Random add/remove/lookup/reverse-lookup/keys sequences on several Enum objects alive at once vs a dict model. Also: the shipped enumerations (5 sets + every entry's service actions) do not affect one another; OpCode.serviceaction re-read at every comparison; reverse lookups of values 256 away, negative, huge, and of objects that carry a number.",
             "names colliding with the Enum/type API are excluded by construction", "4 C18"),
     "C19": ("exploration", "configuration enumeration in child interpreters with audit hooks",
-            "4 binding-presence configurations x all modules x device strings (nodes as under /dev, symlinks, CHAP/IPv6 URLs, LUNs up to 65535, strings with formatting characters) x rw x initiator names; sys.addaudithook records open/socket events; NotImplementedError before any open/connect; path, access mode, connect arguments and command LUN as requested.",
+            "4 binding-presence configurations x all modules x device strings (nodes as under /dev, symlinks, CHAP/IPv6 URLs, LUNs up to 65535, strings with formatting characters) x rw x initiator names; sys.addaudithook records open/socket events; NotImplementedError before any open/connect; path, access mode, connect arguments and command LUN as requested. Also: the library as built (setup.py build) and packed into a zip archive, six binding release strings, device objects that are false / sized / slotted / with unusual execute() signatures, every initiator name format, strings a URL parser would reject, opens the system refuses.",
             "stand-in modules model binding presence", "4 C19"),
 }
 
